@@ -208,7 +208,7 @@ def rule_dt(repo):
     return res
 
 
-def rules(repo, tier):
+def _rules_core(repo, tier):
     return [rule_layout(repo, 'C03.LT', lt_entries(), floor=16), rule_acc(repo), rule_id(repo), rule_sb(repo), rule_dt(repo), rule_nosign(repo), rule_mat(repo)]
 
 
@@ -266,3 +266,11 @@ def rule_nosign(repo):
                 res.add(Finding('C03.NOSIGN', f, '%s_%s.forward scales its result by `%s`, which is 0 when its argument is exactly 0: the '
                                 'returned element degenerates (zero quaternion) for such inputs' % (G, op, src(b)[:50]), construct='sign factor ' + src(b)[:50]))
     return res
+
+
+def rules(repo, tier):
+    from ..memo import rule_memo
+    return list(_rules_core(repo, tier)) + [rule_memo(repo, 'C03.MEMO', 'history independence: nothing computed from the contents of a tensor argument is kept '
+                                                      'under the identity, address or version of that tensor, in module-level storage, or published from a generator '
+                                                      'before it is complete - a later call with the same object and other contents must not be answered from it',
+                                                      ['pypose.lietensor.lietensor', 'pypose.lietensor.operation', 'pypose.lietensor.basics', 'pypose.lietensor.utils'], floor=3)]
